@@ -42,6 +42,12 @@ def parseA6Res (res : String) : Option (Except AErr Block) :=
   | _ => none
 
 def step (st : St) (op res : String) : St × List String :=
+  -- an operation that never came back (harness/alloc.go): the allocator blocks for ever, which no one-at-a-time order explains
+  if res == "HANG" then
+    (.none, ["br:alloc.hang", "DIVERGE dom model does not block",
+             s!"FAIL C01 the allocator never returned from: {op} (a lock left held)",
+             s!"FAIL C16 the allocator never returned from: {op} (a lock left held; no one-at-a-time order explains a call that does not return)"]) else
+  if res == "SKIP after-hang" then (st, ["br:alloc.skip-after-hang"]) else
   match words op, st with
   | ["new6", base, poolLen, page], _ =>
     match (parseHex base).bind addrOfBytes, poolLen.toNat?, page.toNat? with
